@@ -151,6 +151,14 @@ class PageScan(HTMLParser):
             self.bad.append('unknown declaration with marker')
 
 
+def _unq(a):
+    from urllib.parse import unquote
+    try:
+        return unquote(a)
+    except Exception:
+        return a
+
+
 def scan_html(text):
     p = PageScan()
     p.feed(text)
@@ -240,6 +248,13 @@ def check_error_body(ctx, r, fields, accept, rc, what, strict_fields=True, dynam
         if p.bad:
             ctx.mismatch('html-markup-injected', '%s: input introduced markup: %s' % (what, p.bad[:3]), rc)
             return fmt
+        # a marked text may sit inside an attribute value (the link of a link-style error type) - but then whole: a value that
+        # holds only a *piece* of a given text means the text broke out of its attribute and the rest became attributes
+        wholes = [norm_nl(str(x)) for x in list(dynamic) + list(given.values()) if x is not None and MARK in str(x)]
+        for a in p.attr_values:
+            if a and MARK in a and not any(w in norm_nl(a) or w in norm_nl(_unq(a)) for w in wholes):
+                ctx.mismatch('html-markup-injected', '%s: attribute value %r holds a fragment of a given text (given %r)' % (what, a[:60], wholes[:2]), rc)
+                return fmt
         data = ''.join(p.data)
         for k, v in given.items():
             if k == 'code' or not strict_fields or not html_fields:
